@@ -38,6 +38,7 @@ inductive Op
   | filter (g : Nat) (msgs : List C16.Id)
   | seq (g m : Nat)
   | flood (n : Nat)
+  | pfail (mask : List Bool)
 
 def parseOp (line : String) : Option Op :=
   match line.splitOn " " with
@@ -53,6 +54,9 @@ def parseOp (line : String) : Option Op :=
   | ["flood", n] => do
     let k ← n.toNat?
     if n.all Char.isDigit && k ≤ 200000 then pure (.flood k) else none
+  | ["pfail", mask] =>
+    if 1 ≤ mask.length && mask.length ≤ 16 && mask.all (fun c => c = '0' || c = '1')
+    then some (.pfail (mask.toList.map (· = '1'))) else none
   | ["seq", be, g, m] => do
     let g ← parseSmall g
     let m ← m.toNat?
@@ -70,6 +74,12 @@ def model (line : String) : String :=
   -- n + 2 sequential calls, n + 1 distinct ids: by `at_most_once` / `exactly_once_when_finished`
   -- (the cache is never pruned) the repeated id is delivered once, every id once
   | some (.flood n) => s!"first=1 total={n + 1}"
+  -- `C16.sendAll`: the sequence number is taken before the publish and never given back
+  -- (`sendAll_fresh`); a failed first publish is an error of that Send only, the message is
+  -- published by the retransmissions and delivered once
+  | some (.pfail mask) =>
+    let sent := C16.sendAll 0 mask
+    s!"sends={sent.length} errs={(sent.filter (·.2)).length} fresh={C16.nodupB (sent.map fun p => ((0 : Nat), p.1))} wire={sent.length} delivered={sent.length} dup=0"
   | none => "bad-op"
 
 def parseIdList (sep : String) (s : String) : Option (List C16.Id) :=
@@ -108,5 +118,10 @@ def monitor (op obs : String) : String :=
     else if obs.startsWith "first=2" then "FAIL delivered-twice-after-long-history" else "FAIL filter-lost-or-invented-a-message"
   | some (.seq g m) =>
     if obs = s!"n={g * m} distinct=true min=1 max={g * m} mono=true" then "ok" else "FAIL seqno-not-fresh"
+  | some (.pfail _) =>
+    if (obs.splitOn "fresh=false").length != 1 then "FAIL seqno-not-fresh"
+    else if (obs.splitOn " dup=0").length == 1 then "FAIL delivered-twice"
+    else if (obs.splitOn "stall:").length != 1 then "FAIL stall"
+    else "ok"
 
 def main (args : List String) : IO UInt32 := driverMain model monitor args
